@@ -18,12 +18,12 @@ pub fn dbg_parse(seed: u64, n: u64) -> i32 {
     let mut tally = std::collections::BTreeMap::new();
     for i in 0..n {
         let mut rng = Rng::new(run_seed(seed, "C10", i));
-        let spec = c10::gen_world(&mut rng, 1, 1, false, true);
+        let spec = c10::gen_world(&mut rng, 1, 1, std::env::var("DBG_STATEFUL").is_ok(), true);
         let w = spec.build(crate::world::PolicyKind::Eager).unwrap();
         if let Ok(t) = crate::world::parse(&w.parser, &spec.template_src[0]) {
             let g = spec.globals();
             if let crate::world::Outcome::Err { msg, .. } = crate::world::render_buffered(&t, &g[0]) {
-                let key: String = msg.lines().take(1).collect::<Vec<_>>().join(" | ");
+                let key: String = msg.lines().filter(|l| !l.trim_start().starts_with("from:") && !l.contains("with:")).take(2).collect::<Vec<_>>().join(" | ");
                 *tally.entry(key).or_insert(0u64) += 1;
             }
         }
